@@ -459,4 +459,4 @@ Definition call_py {V} (s : sig) (c : call V) : outcome V :=
   if nonstr_in (c_kws c) then TypeErr ENonStr else bind_py s c.
 (* a kwnames tuple is only produced by such a caller *)
 Definition wf_entry (vc : bool) (pth : path) : bool :=
-  match pth with PDict => true | _ => vc end.
+  match pth with PTuple => vc | _ => true end.
